@@ -47,6 +47,7 @@ package ctlog
 //@   init gUp == emptyset("set[string]") && gUpTried == emptyset("set[string]") && gDiscarded == emptyset("set[string]")
 //@   invariant "range p.pendingLeaves" bound: rangeindex < len(p.pendingLeaves)
 //@   invariant "range p.pendingLeaves" [C04] tile-boundary: n % 256 == 0 ==> ((!has(edgeTiles, -1) || edgeTiles[-1].W == 256) && (!has(edgeTiles, -2) || edgeTiles[-2].W == 256) && len(dataTile) == 0 && len(namesTile) == 0)
+//@   invariant "range p.pendingLeaves" [C04,C07] indexes-are-positions: len(sequencedLeaves) == rangeindex + 1 && (forall k int :: (0 <= k && k < len(sequencedLeaves)) ==> (sequencedLeaves[k] != nil && sequencedLeaves[k].LeafIndex == old(l.tree.N) + k && sequencedLeaves[k].Timestamp == timestamp))
 //@   invariant "range p.pendingLeaves" count: n == old(l.tree.N) + rangeindex + 1
 //@   invariant "range p.pendingLeaves" overlay: hashReader != nil && isPrefix(seqOfTree(old(l.tree.Tree)), hashReader.gseq) && slenQ(hashReader.gseq) == n
 //@   invariant "range p.pendingLeaves" no-ops: gReplaceTried == 0 && gUpTried == emptyset("set[string]") && gDiscarded == emptyset("set[string]") && gAppliedOK == 0 && gCachePuts == 0
@@ -68,6 +69,7 @@ package ctlog
 //@   call ctlog.Backend.Upload "checkpoint" requires [C03,C04] tiles-first: gAppliedOK == 1 && gApplied == stagedUploads
 //@   call ctlog.Backend.Discard requires [C03,C04] after-publish: gUp["checkpoint"] && gUpData["checkpoint"] == checkpoint && c_key == stagingPath
 //@   call ctlog.(*Log).cachePut requires [C02,C07] after-publish: gUp["checkpoint"] && gUpData["checkpoint"] == checkpoint && c_entries == sequencedLeaves
+//@   call ctlog.(*Log).cachePut requires [C04,C07] cached-indexes-are-positions: len(sequencedLeaves) == len(p.pendingLeaves) && (forall k int :: (0 <= k && k < len(sequencedLeaves)) ==> (sequencedLeaves[k].LeafIndex == old(l.tree.N) + k && sequencedLeaves[k].Timestamp == timestamp))
 //@   ensures [C02,C17] waiters-released: closed(p.done)
 //@   ensures [C02] ack-implies-published: p.err == nil ==> gUp["checkpoint"] && gUpData["checkpoint"] == gLastNew && gReplaceOK == 1 && gAppliedOK == 1
 //@   ensures [C02] result-set: p.err == nil ==> p.firstLeafIndex == old(l.tree.N) && p.timestamp > old(l.tree.Time)
@@ -343,3 +345,12 @@ package ctlog
 //@   ensures [C09] roots-swapped-only-after-persisting: (l.roots != old(l.roots) || l.rootsPEM != old(l.rootsPEM)) ==> (ret == nil && gUp["_roots.pem"] && gUpData["_roots.pem"] == pemBytes && l.rootsPEM == pemBytes)
 //@   ensures [C09] failure-keeps-old-roots: ret != nil ==> l.roots == old(l.roots) && l.rootsPEM == old(l.rootsPEM)
 //@   ensures [C09] unlocked: !held(&l.rootsMu)
+
+// ---- deduplication key (C07): one specification for both copies of computeCacheHash
+//@ pure func cacheKeyBytes(isPrecert bool, ikh bytes, cert bytes) bytes = ite(isPrecert, u16(1) + ikh + u24(len(cert)) + cert, u16(0) + u24(len(cert)) + cert)
+//@ func ctlog.computeCacheHash props C07
+//@   ensures [C07] key-is-hash-of-type-issuer-and-certificate: ret == sha256Of(cacheKeyBytes(IsPrecert, IssuerKeyHash, Certificate))
+
+//@ func ctlog.(*PendingLogEntry).asLogEntry props C02 C04 C07
+//@   ensures [C02,C04,C07] sequenced-entry-is-the-pending-entry-at-index: ret != nil && ret.LeafIndex == idx && ret.Timestamp == timestamp && ret.Certificate == e.Certificate && ret.IsPrecert == e.IsPrecert && ret.IssuerKeyHash == e.IssuerKeyHash && ret.PreCertificate == e.PreCertificate && !ret.RFC6962ArchivalLeaf
+//@   defines fresh(ret)
